@@ -467,4 +467,74 @@ theorem wsum_items (k : K) (cm : List (Entry K)) (hnd : (keysOf cm).Nodup) :
       simp only [h, if_true, ih', this]; omega
     · simp only [h, if_false, ih']; omega
 
+/-! canonical printing: `canon` depends on the multiset only -/
+
+theorem insCanon_perm (x : Nat × Nat) (l : List (Nat × Nat)) : (insCanon x l).Perm (x :: l) := by
+  induction l with
+  | nil => simp [insCanon]
+  | cons y ys ih =>
+    simp only [insCanon]
+    split
+    · exact List.Perm.refl _
+    · exact (List.Perm.cons y ih).trans (List.Perm.swap x y ys)
+
+theorem canon_perm (l : List (Nat × Nat)) : (canon l).Perm l := by
+  induction l with
+  | nil => simp [canon]
+  | cons x xs ih =>
+    simp only [canon, List.foldr_cons] at ih ⊢
+    exact (insCanon_perm x _).trans (List.Perm.cons x ih)
+
+theorem canonLe_total (a b : Nat × Nat) : canonLe a b = true ∨ canonLe b a = true := by
+  simp only [canonLe, Bool.or_eq_true, Bool.and_eq_true, decide_eq_true_eq, beq_iff_eq]; omega
+
+theorem canonLe_trans (a b c : Nat × Nat) (h1 : canonLe a b = true) (h2 : canonLe b c = true) :
+    canonLe a c = true := by
+  simp only [canonLe, Bool.or_eq_true, Bool.and_eq_true, decide_eq_true_eq, beq_iff_eq] at *; omega
+
+theorem canonLe_antisymm (a b : Nat × Nat) (h1 : canonLe a b = true) (h2 : canonLe b a = true) : a = b := by
+  simp only [canonLe, Bool.or_eq_true, Bool.and_eq_true, decide_eq_true_eq, beq_iff_eq] at *
+  apply Prod.ext <;> omega
+
+theorem insCanon_sorted (x : Nat × Nat) (l : List (Nat × Nat))
+    (h : l.Pairwise (fun a b => canonLe a b = true)) :
+    (insCanon x l).Pairwise (fun a b => canonLe a b = true) := by
+  induction l with
+  | nil => simp [insCanon]
+  | cons y ys ih =>
+    simp only [List.pairwise_cons] at h
+    simp only [insCanon]
+    split
+    · rename_i hle
+      simp only [List.pairwise_cons]
+      refine ⟨?_, h⟩
+      intro b hb
+      rcases List.mem_cons.mp hb with rfl | hb
+      · exact hle
+      · exact canonLe_trans _ _ _ hle (h.1 b hb)
+    · rename_i hnle
+      simp only [List.pairwise_cons]
+      refine ⟨?_, ih h.2⟩
+      intro b hb
+      have := (insCanon_perm x ys).mem_iff.mp hb
+      rcases List.mem_cons.mp this with rfl | hb'
+      · rcases canonLe_total y b with h' | h'
+        · exact h'
+        · exact absurd h' hnle
+      · exact h.1 b hb'
+
+theorem canon_sorted (l : List (Nat × Nat)) : (canon l).Pairwise (fun a b => canonLe a b = true) := by
+  induction l with
+  | nil => simp [canon]
+  | cons x xs ih =>
+    simp only [canon, List.foldr_cons] at ih ⊢
+    exact insCanon_sorted x _ ih
+
+theorem canon_eq_of_perm (l₁ l₂ : List (Nat × Nat)) (h : l₁.Perm l₂) : canon l₁ = canon l₂ := by
+  apply List.Perm.eq_of_pairwise (le := fun a b => canonLe a b = true)
+  · intro a b _ _ h1 h2; exact canonLe_antisymm a b h1 h2
+  · exact canon_sorted l₁
+  · exact canon_sorted l₂
+  · exact (canon_perm l₁).trans (h.trans (canon_perm l₂).symm)
+
 end C20
